@@ -5,7 +5,7 @@ V = os.path.dirname(os.path.abspath(__file__))
 CHECKS = {
  # id: (category, technique, text, note, design_ref, engine)
  "C01": ("model_checking", "explicit-state BFS over construction histories on the real code + save/load probe in every state",
-         "Every state reachable by bounded construction histories (declare, rates, 16 parameter shapes, descriptions, locks, frames, columns, reload) is saved, reloaded with the library and compared field by field (bit-exact floats, residuals, dims, descriptions, locks, header counts).",
+         "Every state reachable by bounded construction histories (declare, rates, 16 parameter shapes, descriptions, locks, frames, columns, reload; also from 6 loaded roots) is saved, reloaded with the library and compared field by field (bit-exact floats, residuals, dims, descriptions, locks, header counts).",
          "bounded by the alphabet/shape guards in coverage.runs; POINT:DATA_START's value is excluded (file pointer, C03); strings compared modulo trailing spaces", "§3 C01", "api"),
  "C02": ("exploration", "deviation-bounded exhaustive enumeration of well-formed files (independent encoder) executed on the real loader, compared with an independent reference decoder",
          "Default content/layout plus every combination of <= 3 (quick) / 4 (thorough) non-default alternatives over 20 content and layout dimensions (incl. every vendor layout the statement lists), plus the four shipped binary files; each loaded object is compared with the reference decode of the same bytes: header counts, frame range, rates, events, every named group/parameter (type, dims, values, description, lock), every point x/y/z/residual and every analog sample at its (frame, sub-frame, channel). Only minimal deviation sets are reported.",
@@ -14,52 +14,52 @@ CHECKS = {
          "Every file of the C02 enumeration (<= 2 / 3 deviations) and the shipped files: G1=load(f), save, G2=load, save(, G3): content of consecutive generations equal on named groups/parameters, frames, residuals, samples, frame range, rates, events; generation-2 and generation-3 files byte-identical.",
          "placeholder groups of unused ids are ignored in the comparison", "§3 C04", "file"),
  "C12": ("exploration", "exhaustive enumeration of integer / float bit patterns in generated files, loaded, compared with the reference reading, re-saved and compared byte-wise",
-         "All 2^8 byte values, all 2^16 integer values, boundary-dense header words and 2048 float patterns (every exponent and sign) in every float-carrying position: loaded value = the bytes' two's-complement / unsigned / bit-pattern reading; re-saved element bytes identical.",
+         "All 2^8 byte values, all 2^16 integer values, boundary-dense header words and 2048 float patterns (every exponent and sign) in every float-carrying position, each pattern file in 3 (thorough: 9) layouts: loaded value = the bytes' two's-complement / unsigned / bit-pattern reading; re-saved element bytes identical.",
          "float patterns: 4 mantissas per exponent/sign; header rate patterns step 8 in quick, all in thorough", "§3 C12", "file"),
  "C03": ("model_checking", "explicit-state BFS on the real code + independent reference decoder on every saved file",
          "Every reachable object is saved and its bytes decoded by refc3d (spec-level decoder that follows only the file's own pointers); 12 clauses (pointers, block count, next-offsets, terminator, padding, header-vs-parameters, float marker, data size, upper-case names, lock signs, content) each with its own signature.",
          "trusted base: harness/refc3d.h (bound to the vendor files and to the implementation by the selftest and by C02)", "§3 C03", "api"),
  "C05": ("model_checking", "explicit-state BFS over mutator histories on the real code, invariant evaluated in every reachable state",
-         "All interleavings of the 60-op mutator alphabet (declare, rates, parameters, append/replace/extend conforming and documented-deviating frames, both column adders conforming and deviating, refused parameter calls, reload) up to the depth bound; the header / POINT / ANALOG / data agreement is evaluated in every distinct state.",
+         "All interleavings of the 60-op mutator alphabet (declare, rates, parameters, append/replace/extend conforming and documented-deviating frames, both column adders conforming and deviating, refused parameter calls, reload) up to the depth bound; the header / POINT / ANALOG / data agreement is evaluated in every distinct state. A second alphabet ('loaded') applies every editing call to objects LOADED from the default generated file and from every file that differs from it in one generator dimension.",
          "frames with undocumented deviations, rate edits after data, and column adds on data sets that still hold gap frames are outside the property's quantifier and not generated", "§3 C05", "api"),
  "C06": ("model_checking", "explicit-state BFS on the real code with a snapshot-differential transition oracle",
-         "Every frame call (append, each existing index, count, count+1, count+2; three value sets incl. special floats; caller registers) and every column add from every reachable data-set size is compared with the pre-state snapshot: count, target content bit-exact, all other frames bit-identical, gap frames empty, exactly one trailing column.",
+         "Every frame call (append, each existing index, count, count+1, count+2; three value sets incl. special floats; caller registers) and every column add from every reachable data-set size is compared with the pre-state snapshot: count, target content bit-exact, all other frames bit-identical, gap frames empty, exactly one trailing column. Also run over the 'c07' and 'loaded' (objects loaded from every single-deviation generated file) alphabets.",
          "sizes bounded by the shape guards (frames <= 4/5, points <= 3, channels <= 2)", "§3 C06", "api"),
  "C07": ("model_checking", "explicit-state BFS on the real code; three-valued documented predicate computed from the pre-state",
-         "Object states (declared/undeclared x rates x data x reload) crossed with 14 frame deviations x 3 targets and 18 column deviations; the expected verdict (must-accept / must-refuse(class) / don't-care) is computed from the pre-state's public accessors and the header documentation only.",
+         "Object states (declared/undeclared x rates x data x reload) crossed with 14 frame deviations x 3 targets and 18 column deviations; the expected verdict (must-accept / must-refuse(class) / don't-care) is computed from the pre-state's public accessors and the header documentation only; rates include 0.5 Hz, frames include ragged sub-frames; the 'loaded' alphabet repeats the editing calls on objects loaded from every single-deviation generated file.",
          "verdict is don't-care wherever the documented contract is silent", "§3 C07", "api"),
  "C08": ("model_checking", "explicit-state BFS on the real code over caller-register histories; snapshot differential",
-         "Caller-side frame registers are built, submitted (append / indexed), mutated, extended, copied and re-submitted, interleaved with in-place edits of stored frames and column adds; after every caller-side op the object must be unchanged, after every object-side op the registers and the other frames must be unchanged; the aliasing partition is part of the state key.",
+         "Caller-side frame registers are built, submitted (append / indexed), mutated, extended, copied and re-submitted, interleaved with in-place edits of stored frames and column adds; after every caller-side op the object must be unchanged, after every object-side op the registers and the other frames must be unchanged; the aliasing partition is part of the state key; frames are handed over as lvalues and as temporaries copied from a register.",
          "2 registers, <= 4/5 stored frames", "§3 C08", "api"),
  "C09": ("model_checking", "explicit-state BFS on the real code over parameter/group edit sequences + exhaustive shape table",
-         "Add / replace / lock / unlock over existing and new groups x names x value menu: created-iff-absent, replaced-in-place-iff-present, look-up equals the given parameter, every other group/parameter identical at the same index, frames untouched, lock toggles flip one flag.",
+         "Add / replace / lock / unlock over existing and new groups x names x value menu: created-iff-absent, replaced-in-place-iff-present, look-up equals the given parameter, every other group/parameter identical at the same index, frames untouched, lock toggles flip one flag; names differing by case only are distinct parameters.",
          "value menu of 6 (quick) / 10 (thorough) shapes", "§3 C09", "api"),
  "C10": ("model_checking", "explicit-state BFS on the real code; whole-object snapshot equality on every refused transition",
-         "Every throwing transition met by the mutator, precondition and parameter alphabets (including partly-invalid arguments) must leave the full snapshot (header, parameters, frames, caller frames, aliasing) identical.",
-         "rides on the alphabets of C05/C07/C09", "§3 C10", "api"),
+         "Every throwing transition met by the mutator, precondition, parameter and loaded-object alphabets (including partly-invalid arguments, ragged frames, refused declarations at the capacity limits) must leave the full snapshot (header, parameters, frames, caller frames, aliasing) identical.",
+         "rides on the alphabets of C05/C07/C09 and on the 'loaded' roots", "§3 C10", "api"),
  "C13": ("model_checking", "explicit-state BFS on the real code built with ASan/UBSan/_GLIBCXX_ASSERTIONS; sanitizer is the oracle on every transition, probe and destructor",
-         "The six engine-A alphabets (mutators, frames/registers, preconditions, parameters, look-ups, construction) are re-explored with the address/undefined sanitizers and libstdc++ assertions; every distinct state is additionally printed, saved, reloaded and destroyed; recoverable reports are attributed to the transition, fatal ones through the worker breadcrumb.",
+         "The seven engine-A alphabets (mutators, frames/registers, preconditions, parameters, look-ups, construction, edits of loaded objects) are re-explored with the address/undefined sanitizers and libstdc++ assertions; every distinct state is additionally printed, saved, reloaded and destroyed; recoverable reports are attributed to the transition, fatal ones through the worker breadcrumb.",
          "ASan-invisible errors (intra-object overflow) out of reach; file-space inputs are covered by C02/C04/C16 runs", "§3 C13", "api"),
  "C14": ("model_checking", "explicit-state BFS on the real code; per-state save/save probe, three-process MALLOC_PERTURB_ digest join, memcheck pass",
-         "In every reachable state the object is snapshotted, saved twice and snapshotted again (purity, repeatability); the exploration is repeated in three processes whose fresh heap bytes differ (MALLOC_PERTURB_ unset/0x55/0xAA) and the per-state file digests are joined on the state key; a shallower exploration runs entirely under valgrind memcheck and counts errors around each save.",
+         "In every reachable state the object is snapshotted, saved to a fresh path, saved again over an existing longer file, and snapshotted again (purity, repeatability, bytes determined by the object alone); the exploration is repeated in three processes whose fresh heap bytes differ (MALLOC_PERTURB_ unset/0x55/0xAA) and the per-state file digests are joined on the state key; a shallower exploration runs entirely under valgrind memcheck and counts errors around each save.",
          "stack-sourced garbage is visible only to the memcheck pass (depth 1 quick / 2 thorough)", "§3 C14", "api"),
  "C15": ("fault_enumeration", "exhaustive single-fault (thorough: pair) enumeration over a fake device interposed under libc: every capacity, every write call, every open/close fault",
          "For 4 objects every fault plan is executed on the real save path: open fails (3 errnos), device capacity C for every C in [0,size), k-th write call fails (2 errnos) for every k, close fails, all/k-th write short; oracle: returned normally => the device holds exactly the fault-free bytes, otherwise std::ios_base::failure must propagate; short writes alone must not fail.",
          "faults injected at fopen/fopen64/write/writev/fclose by link-time interposition (verified to sit under libstdc++'s basic_filebuf)", "§3 C15", "fault"),
  "C16": ("fault_enumeration", "exhaustive damage enumeration (truncations, byte overwrites, structural-field sweeps, pairs) of small valid files loaded by the real code in forked children under cap + watchdog, plain and ASan builds",
-         "5 base files; every truncation length; every byte of header+parameters+first data block x 5 boundary values; every structural byte x 256 values; pairs of structural bytes x boundary values; child must end through 'object returned' or 'std::exception': no signal, no sanitizer report, no timeout (re-run alone with 10x limit), no memory growth stopped only by the cap (re-checked under 8 GiB).",
+         "5 base files; children forked from a pristine process and ('primed' runs) from a process that has already loaded 12 valid files; every truncation length; every byte of header+parameters+first data block x 5 boundary values; every structural byte x 256 values; pairs of structural bytes x boundary values; child must end through 'object returned' or 'std::exception': no signal, no sanitizer report, no timeout (re-run alone with 10x limit), no memory growth stopped only by the cap (re-checked under 8 GiB).",
          "signature = outcome / innermost ezc3d function / damaged field kind", "§3 C16", "damage"),
  "C17": ("exploration", "bounded-exhaustive enumeration of capacity limits at L-1, L, L+1, far beyond, alone and in pairs, built through the API, saved and reloaded on the real code",
-         "13 capacity limits; at or below L the content must round-trip (C01 projection); above L saving must throw or the reload must equal the saved object (anything else is silent corruption).",
+         "16 capacity limits (one of them the parameter section's byte-exact length), each also at the signed boundary of its field (127|128, 32767|32768); at or below L the content must round-trip (C01 projection); above L saving must throw or the reload must equal the saved object (anything else is silent corruption).",
          "pairs with > 10^7 points not built; last-frame-number limit covered by C12's header sweep", "§3 C17", "misc"),
  "C18": ("model_checking", "stateless preemption-bounded exhaustive schedule exploration of the real code under a cooperative scheduler (scheduling points: library function entry/exit, operator new/delete, libc I/O; every schedule in a fresh process) + free-running ThreadSanitizer pass",
-         "2-thread (thorough: also 3-thread) groups of bodies on independent objects; all thread orders, one preemption at every one of ~1.3-2.1*10^4 fine points per thread, two preemptions over all pairs of coarse points; every schedule is a real execution whose per-thread digest (dump after every op, saved bytes, exception classes) must equal the body run alone; diverging schedules are re-run before being reported. The same bodies run free under TSan (hand-offs of a cooperative scheduler would blind it).",
+         "2-thread (thorough: also 3-thread) groups of bodies on independent objects; all thread orders, one preemption at every one of ~1.3-2.1*10^4 fine points per thread, two preemptions over all pairs of coarse points; every schedule is a real execution whose per-thread digest (dump after every op, saved bytes, exception classes) must equal the body run alone; diverging schedules are re-run before being reported; function-local statics are handled by a cooperative guard; bodies include edits of loaded files that lack different optional parameters. The same bodies run free under TSan (hand-offs of a cooperative scheduler would blind it).",
          "sub-function interleavings and weak memory only via the TSan pass", "§3 C18", "sched"),
  "C19": ("exploration", "configuration matrix: the six supported CMake builds each run the same deterministic exhaustive corpora; transcripts compared line by line",
-         "Debug/RelWithDebInfo/Release x shared/static built with the project's CMakeLists; corpora: three API state spaces (every transition with outcome class + successor hash + saved-file digest per state), the file corpus through load/save generations, all integer/float pattern files, the setter shape table.",
+         "Debug/RelWithDebInfo/Release x shared/static built with the project's CMakeLists; corpora: three API state spaces (every transition with outcome class + successor hash + saved-file digest per state), the file corpus through load/save generations, all integer/float pattern files, the setter shape table, and one construction history executed by a static object's constructor (before main) and by main.",
          "harness objects compiled once; x86-64 gcc only", "§3 C19", "c19"),
  "C11": ("model_checking", "explicit-state BFS on the real code + exhaustive look-up sweep in every state",
-         "In every distinct state every positional accessor is called with {0..size-1,size,size+1,2^32,2^64-1} and every by-name accessor with {present, absent, case variant, padded, empty}; typed getters on every parameter; trailing-space naming clause on every naming call.",
+         "In every distinct state every positional accessor is called with {0..size-1,size,size+1,2^32,2^64-1} and every by-name accessor with {present, absent, case variant, padded, empty}; typed getters on every parameter, also after refused set() calls on a copy; trailing-space naming clause on every naming call; Point::data() against the components.",
          "container sizes bounded by the shape guards", "§3 C11", "api"),
 }
 NOT_YET = {}
